@@ -243,6 +243,8 @@ def table_laws(stats, versions=T.VERSIONS):
     from mysensors.const import get_const
     from mysensors.sensor import ChildSensor
 
+    for other in T.VERSIONS:
+        get_const(other)  # a process normally ends up with several versions loaded (nodes present their own)
     for version in versions:
         const = get_const(version)
         defined_now = _defined_sets(version)
